@@ -205,6 +205,11 @@ pub fn open<'a>(
 ) -> Term<'a> {
     match &term_to_open.variant {
         Unifier(subterm, subterm_shift) => {
+            #[cfg(feature = "verif-hooks")]
+            if subterm.borrow().is_none() {
+                verif_hooks::OPEN_UNRESOLVED.with(|c| c.set(c.get() + 1));
+            }
+
             // We `clone` the borrowed `subterm` to avoid holding the dynamic borrow for too long.
             { subterm.borrow().clone() }.map_or_else(
                 || Term {
@@ -422,6 +427,17 @@ pub fn open<'a>(
                 )),
             ),
         },
+    }
+}
+
+// Event counters for the external verification harness (feature `verif-hooks`, off by default).
+#[cfg(feature = "verif-hooks")]
+pub mod verif_hooks {
+    use std::cell::Cell;
+
+    thread_local! {
+        // Number of times `open` met an unresolved unifier (and replaced it by a fresh one).
+        pub static OPEN_UNRESOLVED: Cell<usize> = const { Cell::new(0) };
     }
 }
 
